@@ -391,13 +391,14 @@ func Select(hasDefault bool, cases ...Case) int {
 		}
 		return false
 	}
-	r.Point(rt.Op{Kind: "select", Obj: first, More: more, Enabled: anyReady})
+	r.Point(rt.Op{Kind: "select", Obj: first, More: more, Enabled: anyReady, VC: rt.VCLate})
 	for _, k := range cases {
 		if k != nil {
 			k.unregister()
 		}
 	}
 	if sel.fired {
+		r.SyncPicked(cases[sel.firedAt].obj())
 		cases[sel.firedAt].finish()
 		return sel.firedAt
 	}
@@ -414,6 +415,7 @@ func Select(hasDefault bool, cases ...Case) int {
 	if len(ready) > 1 {
 		pick = ready[rt.Choose(len(ready), false, "select")]
 	}
+	r.SyncPicked(cases[pick].obj())
 	cases[pick].perform(sel)
 	return pick
 }
